@@ -159,29 +159,34 @@ Record hst := mkH {
   dvalid : bool; didx : nat; encr : bool;                  (* EncryptionInfo: decrypt valid, next decrypt index, is_encrypted *)
   dl : option N; extp : bool; exti : bool; bfe : bool;     (* m_download, peer supports ext, is_initial_handshake, m_bitfield.empty() *)
   recog : bool; aok : bool; wlog : list wev;               (* ghost: peer key/handshake recognised; all consumed cells cell_ok; writes *)
-  wint : bool; wbf : bool; rdone : bool }.                 (* in the poll's write set; m_writePos == bitfield size; m_readDone *)
+  wint : bool; wbf : bool; rdone : bool;                   (* in the poll's write set; m_writePos == bitfield size; m_readDone *)
+  nread : nat; dstart : nat }.                             (* ghost: bytes read from the socket so far; stream offset of the first decrypted byte *)
 
 Definition remaining s := length (buf s).
 Definition endp s := pos s + length (buf s).
 
-Definition set_st s x := mkH x (pos s) (buf s) (rpos s) (inc s) (pol s) (crypto s) (lenia s) (dvalid s) (didx s) (encr s) (dl s) (extp s) (exti s) (bfe s) (recog s) (aok s) (wlog s) (wint s) (wbf s) (rdone s).
-Definition set_win s p b := mkH (st s) p b (rpos s) (inc s) (pol s) (crypto s) (lenia s) (dvalid s) (didx s) (encr s) (dl s) (extp s) (exti s) (bfe s) (recog s) (aok s) (wlog s) (wint s) (wbf s) (rdone s).
-Definition set_rpos s x := mkH (st s) (pos s) (buf s) x (inc s) (pol s) (crypto s) (lenia s) (dvalid s) (didx s) (encr s) (dl s) (extp s) (exti s) (bfe s) (recog s) (aok s) (wlog s) (wint s) (wbf s) (rdone s).
-Definition set_crypto s x := mkH (st s) (pos s) (buf s) (rpos s) (inc s) (pol s) x (lenia s) (dvalid s) (didx s) (encr s) (dl s) (extp s) (exti s) (bfe s) (recog s) (aok s) (wlog s) (wint s) (wbf s) (rdone s).
-Definition set_lenia s x := mkH (st s) (pos s) (buf s) (rpos s) (inc s) (pol s) (crypto s) x (dvalid s) (didx s) (encr s) (dl s) (extp s) (exti s) (bfe s) (recog s) (aok s) (wlog s) (wint s) (wbf s) (rdone s).
-Definition set_dec s v i e := mkH (st s) (pos s) (buf s) (rpos s) (inc s) (pol s) (crypto s) (lenia s) v i e (dl s) (extp s) (exti s) (bfe s) (recog s) (aok s) (wlog s) (wint s) (wbf s) (rdone s).
-Definition set_dl s x := mkH (st s) (pos s) (buf s) (rpos s) (inc s) (pol s) (crypto s) (lenia s) (dvalid s) (didx s) (encr s) x (extp s) (exti s) (bfe s) (recog s) (aok s) (wlog s) (wint s) (wbf s) (rdone s).
-Definition set_extp s x := mkH (st s) (pos s) (buf s) (rpos s) (inc s) (pol s) (crypto s) (lenia s) (dvalid s) (didx s) (encr s) (dl s) x (exti s) (bfe s) (recog s) (aok s) (wlog s) (wint s) (wbf s) (rdone s).
-Definition set_exti s x := mkH (st s) (pos s) (buf s) (rpos s) (inc s) (pol s) (crypto s) (lenia s) (dvalid s) (didx s) (encr s) (dl s) (extp s) x (bfe s) (recog s) (aok s) (wlog s) (wint s) (wbf s) (rdone s).
-Definition set_bfe s x := mkH (st s) (pos s) (buf s) (rpos s) (inc s) (pol s) (crypto s) (lenia s) (dvalid s) (didx s) (encr s) (dl s) (extp s) (exti s) x (recog s) (aok s) (wlog s) (wint s) (wbf s) (rdone s).
-Definition set_aok s x := mkH (st s) (pos s) (buf s) (rpos s) (inc s) (pol s) (crypto s) (lenia s) (dvalid s) (didx s) (encr s) (dl s) (extp s) (exti s) (bfe s) (recog s) x (wlog s) (wint s) (wbf s) (rdone s).
-Definition add_w s w := mkH (st s) (pos s) (buf s) (rpos s) (inc s) (pol s) (crypto s) (lenia s) (dvalid s) (didx s) (encr s) (dl s) (extp s) (exti s) (bfe s) (recog s) (aok s) (wlog s ++ [w]) (wint s) (wbf s) (rdone s).
+Definition set_st s x := mkH x (pos s) (buf s) (rpos s) (inc s) (pol s) (crypto s) (lenia s) (dvalid s) (didx s) (encr s) (dl s) (extp s) (exti s) (bfe s) (recog s) (aok s) (wlog s) (wint s) (wbf s) (rdone s) (nread s) (dstart s).
+Definition set_win s p b := mkH (st s) p b (rpos s) (inc s) (pol s) (crypto s) (lenia s) (dvalid s) (didx s) (encr s) (dl s) (extp s) (exti s) (bfe s) (recog s) (aok s) (wlog s) (wint s) (wbf s) (rdone s) (nread s) (dstart s).
+Definition set_rpos s x := mkH (st s) (pos s) (buf s) x (inc s) (pol s) (crypto s) (lenia s) (dvalid s) (didx s) (encr s) (dl s) (extp s) (exti s) (bfe s) (recog s) (aok s) (wlog s) (wint s) (wbf s) (rdone s) (nread s) (dstart s).
+Definition set_crypto s x := mkH (st s) (pos s) (buf s) (rpos s) (inc s) (pol s) x (lenia s) (dvalid s) (didx s) (encr s) (dl s) (extp s) (exti s) (bfe s) (recog s) (aok s) (wlog s) (wint s) (wbf s) (rdone s) (nread s) (dstart s).
+Definition set_lenia s x := mkH (st s) (pos s) (buf s) (rpos s) (inc s) (pol s) (crypto s) x (dvalid s) (didx s) (encr s) (dl s) (extp s) (exti s) (bfe s) (recog s) (aok s) (wlog s) (wint s) (wbf s) (rdone s) (nread s) (dstart s).
+Definition set_dec s v i e := mkH (st s) (pos s) (buf s) (rpos s) (inc s) (pol s) (crypto s) (lenia s) v i e (dl s) (extp s) (exti s) (bfe s) (recog s) (aok s) (wlog s) (wint s) (wbf s) (rdone s) (nread s) (dstart s).
+Definition set_dl s x := mkH (st s) (pos s) (buf s) (rpos s) (inc s) (pol s) (crypto s) (lenia s) (dvalid s) (didx s) (encr s) x (extp s) (exti s) (bfe s) (recog s) (aok s) (wlog s) (wint s) (wbf s) (rdone s) (nread s) (dstart s).
+Definition set_extp s x := mkH (st s) (pos s) (buf s) (rpos s) (inc s) (pol s) (crypto s) (lenia s) (dvalid s) (didx s) (encr s) (dl s) x (exti s) (bfe s) (recog s) (aok s) (wlog s) (wint s) (wbf s) (rdone s) (nread s) (dstart s).
+Definition set_exti s x := mkH (st s) (pos s) (buf s) (rpos s) (inc s) (pol s) (crypto s) (lenia s) (dvalid s) (didx s) (encr s) (dl s) (extp s) x (bfe s) (recog s) (aok s) (wlog s) (wint s) (wbf s) (rdone s) (nread s) (dstart s).
+Definition set_bfe s x := mkH (st s) (pos s) (buf s) (rpos s) (inc s) (pol s) (crypto s) (lenia s) (dvalid s) (didx s) (encr s) (dl s) (extp s) (exti s) x (recog s) (aok s) (wlog s) (wint s) (wbf s) (rdone s) (nread s) (dstart s).
+Definition set_aok s x := mkH (st s) (pos s) (buf s) (rpos s) (inc s) (pol s) (crypto s) (lenia s) (dvalid s) (didx s) (encr s) (dl s) (extp s) (exti s) (bfe s) (recog s) x (wlog s) (wint s) (wbf s) (rdone s) (nread s) (dstart s).
+Definition add_w s w := mkH (st s) (pos s) (buf s) (rpos s) (inc s) (pol s) (crypto s) (lenia s) (dvalid s) (didx s) (encr s) (dl s) (extp s) (exti s) (bfe s) (recog s) (aok s) (wlog s ++ [w]) (wint s) (wbf s) (rdone s) (nread s) (dstart s).
 (* policy().set_retry_disabled() at the two recognition points; the ghost flag is set with it *)
-Definition mark_recog s := mkH (st s) (pos s) (buf s) (rpos s) (inc s) (set_retry (pol s) Prefer) (crypto s) (lenia s) (dvalid s) (didx s) (encr s) (dl s) (extp s) (exti s) (bfe s) true (aok s) (wlog s) (wint s) (wbf s) (rdone s).
+Definition mark_recog s := mkH (st s) (pos s) (buf s) (rpos s) (inc s) (set_retry (pol s) Prefer) (crypto s) (lenia s) (dvalid s) (didx s) (encr s) (dl s) (extp s) (exti s) (bfe s) true (aok s) (wlog s) (wint s) (wbf s) (rdone s) (nread s) (dstart s).
 
-Definition set_w s i b r := mkH (st s) (pos s) (buf s) (rpos s) (inc s) (pol s) (crypto s) (lenia s) (dvalid s) (didx s) (encr s) (dl s) (extp s) (exti s) (bfe s) (recog s) (aok s) (wlog s) i b r.
+Definition set_w s i b r := mkH (st s) (pos s) (buf s) (rpos s) (inc s) (pol s) (crypto s) (lenia s) (dvalid s) (didx s) (encr s) (dl s) (extp s) (exti s) (bfe s) (recog s) (aok s) (wlog s) i b r (nread s) (dstart s).
 
-Definition add_cells s (c : list cell) := set_win s (pos s) (buf s ++ c).
+Definition set_ghost s n d := mkH (st s) (pos s) (buf s) (rpos s) (inc s) (pol s) (crypto s) (lenia s) (dvalid s) (didx s) (encr s) (dl s) (extp s) (exti s) (bfe s) (recog s) (aok s) (wlog s) (wint s) (wbf s) (rdone s) n d.
+(* bytes arriving from the socket *)
+Definition add_cells s (c : list cell) := set_ghost (set_win s (pos s) (buf s ++ c)) (nread s + length c) (dstart s).
+(* initialize_decrypt: the cipher starts at the byte now at position() *)
+Definition start_dec s (e : bool) := set_ghost (set_dec s true 0 e) (nread s) (nread s - length (buf s)).
 (* EncryptionInfo::decrypt(position + a, n) *)
 Definition dec_range s (a n : nat) :=
   let b := buf s in
@@ -275,7 +280,7 @@ Definition act_skey s k eof : aout :=
     | None => AThr s2 6 2
     | Some t =>
       if is_active t then
-        let s3 := set_dec s2 true 0 true in
+        let s3 := start_dec s2 true in
         let s4 := dec_range s3 0 (remaining s3) in
         ANext (set_st (add_w s4 WVC) NEGOT) k1
       else AThr s2 6 3
@@ -287,7 +292,7 @@ Definition act_negot s k eof : aout :=
   | FOver s' => AInt s' | FNet s' => AThr s' 7 15
   | FOk s1 k1 false => ABrk s1 k1
   | FOk s1 k1 true =>
-    let s2 := if inc s then s1 else dec_range (set_dec s1 true 0 (encr s1)) 0 NEGO in
+    let s2 := if inc s then s1 else dec_range (start_dec s1 (encr s1)) 0 NEGO in
     let v := firstn NEGO (vals s2) in
     if negb (forallb (N.eqb 0) (firstn VCLEN v)) then AThr s2 7 6
     else
@@ -420,7 +425,7 @@ Definition act_bitfield (bfb : nat) s k eof : aout :=
     | None => AThr s 7 15
     | Some (c, k1) =>
       let c' := if dvalid s then dec_from (didx s) c else c in
-      let s1 := set_dec s (dvalid s) (if dvalid s then didx s + length c else didx s) (encr s) in
+      let s1 := set_ghost (set_dec s (dvalid s) (if dvalid s then didx s + length c else didx s) (encr s)) (nread s + length c) (dstart s) in
       let s2 := set_rpos (set_aok s1 (aok s1 && forallb cell_ok c')) (rpos s + length c) in
       if rpos s2 =? bfb then after_msg s2 k1 else ABrk s2 k1
     end
@@ -482,12 +487,12 @@ Inductive out :=
 (* Handshake::event_write as far as it matters for the read side: the socket is writable and takes
    everything. Called by the poll after event_read returned, when the handshake is in the write set
    (from read_peer on). States READ_MESSAGE/READ_BITFIELD/READ_EXT write the buffered data and the
-   bitfield (write_bitfield) and then leave the write set until reading is done; any other state
-   (READ_PORT is not in that case list) only flushes the buffer and leaves the write set. *)
+   (and READ_PORT since /repo 9304f5c) bitfield (write_bitfield) and then leave the write set until
+   reading is done; any other state only flushes the buffer and leaves the write set. *)
 Definition ewrite s : hst :=
   if wint s then
     match st s with
-    | MESSAGE | BITFIELD | EXT => set_w s false true (rdone s)
+    | MESSAGE | BITFIELD | EXT | PORT => set_w s false true (rdone s)
     | _ => set_w s false (wbf s) (rdone s)
     end
   else s.
@@ -529,19 +534,19 @@ Fixpoint pump (n : nat) (bfb : nat) s k : out :=
     end
   end.
 Definition feed (bfb : nat) s (k : list cell) : out :=
-  match k with [] => Cont s [] | _ => pump (length k + 20) bfb s k end.
+  match k with [] => Cont s [] | _ => pump (S (measure s k + length k)) bfb s k end.
 Definition feed_close (bfb : nat) s (k : list cell) : out := event_read (fuel_of s k) bfb s k true.
 
 Definition init_in (p : policy) : hst :=
-  mkH (if allow_enc_hs p then KEY else INFO) 0 [] 0 true p 0 0 false 0 false None false true true false true [] false false false.
+  mkH (if allow_enc_hs p then KEY else INFO) 0 [] 0 true p 0 0 false 0 false None false true true false true [] false false false 0 0.
 (* Handshake::event_write, case CONNECTING (socket connected, no proxy) *)
 Definition init_out (p : policy) : hst :=
   if prefer_enc_hs p then
-    mkH KEY 0 [] 0 false (if negb (retrying p) && allow_plain_hs p then set_retry p Deny else p)
-        0 0 false 0 false (Some 1%N) false true true false true [WKeyPad] false false false
+    mkH KEY 0 [] 0 false (if negb (retrying p) && allow_plain_hs p && allow_plain_stream p then set_retry p Deny else p)
+        0 0 false 0 false (Some 1%N) false true true false true [WKeyPad] false false false 0 0
   else
     mkH INFO 0 [] 0 false (if negb (retrying p) && allow_enc_hs p then set_retry p Require else p)
-        0 0 false 0 false (Some 1%N) false true true false true [WHs false] false false false.
+        0 0 false 0 false (Some 1%N) false true true false true [WHs false] false false false 0 0.
 
 (* ---------------------------------------------------------------- a protocol-following remote peer *)
 Definition clr (l : list N) : list cell := map (fun v => mkCell (Clr v) []) l.
